@@ -19,6 +19,7 @@ import (
 	"github.com/cosi-project/runtime/pkg/controller/runtime/zzverif/simrt"
 	"github.com/cosi-project/runtime/pkg/resource"
 	"github.com/cosi-project/runtime/pkg/state"
+	"github.com/siderolabs/gen/xerrors"
 )
 
 // TFOp is one external operation in the generic-controller world.
@@ -79,6 +80,14 @@ type tfWorld struct {
 	lastFaultStep  int64
 	faultsFired    int
 	triggers       map[string][]chan struct{}
+	lastSkip       map[string]tfSkip // input id -> the skip that was the last transform call for it
+}
+
+// tfSkip records a transform call answered with a SkipReconcileTag error while the output already existed: the
+// documented behaviour is "the error is ignored and the controller will call reconcile on next event" - the output stays.
+type tfSkip struct {
+	LogLen int
+	Val    string // content of the existing output at the time of the call
 }
 
 // fire is called by the commit tap (in the committing task, no scheduling point) and wakes the actors waiting for it.
@@ -115,8 +124,26 @@ func (tw *tfWorld) transformBody(in *A, outRes *B) error {
 	} else {
 		simrt.Yield("transform")
 	}
+	if tw.lastSkip != nil {
+		delete(tw.lastSkip, in.Metadata().ID())
+	}
 	for _, f := range tw.c.Faults {
 		if f == n {
+			if tw.c.FaultKind == "skip" {
+				if outRes.TypedSpec().Val == "" || outRes.Metadata().Phase() != resource.PhaseRunning || in.Metadata().Phase() != resource.PhaseRunning {
+					break // nothing to keep yet (or the pair is already on its way out): transform normally
+				}
+				if tw.lastSkip == nil {
+					tw.lastSkip = map[string]tfSkip{}
+				}
+				tw.lastSkip[in.Metadata().ID()] = tfSkip{LogLen: len(tw.Log), Val: outRes.TypedSpec().Val}
+				tw.faultsFired++
+				tw.out.fault("transform-skip-tag")
+				if tw.c.Flavour == "qtransform" {
+					return xerrors.NewTaggedf[qtransform.SkipReconcileTag]("skipped on purpose")
+				}
+				return xerrors.NewTaggedf[transform.SkipReconcileTag]("skipped on purpose")
+			}
 			tw.faultsFired++
 			tw.out.fault("transform-" + tw.c.FaultKind)
 			switch tw.c.FaultKind {
@@ -305,7 +332,7 @@ func (tw *tfWorld) doOp(ctx context.Context, op TFOp, actor string) {
 }
 
 // tfExpectation computes, from the final inputs, what the outputs must look like (C06 oracle).
-func tfCheckConverged(prop string, c *TFCase, inputs, outputs map[string]Snap, log []Commit, out *Outcome) {
+func tfCheckConverged(prop string, c *TFCase, inputs, outputs map[string]Snap, log []Commit, skips map[string]tfSkip, out *Outcome) {
 	ignoreUntil := map[string]bool{}
 	for _, f := range c.IgnoreUntil {
 		ignoreUntil[f] = true
@@ -346,6 +373,35 @@ func tfCheckConverged(prop string, c *TFCase, inputs, outputs map[string]Snap, l
 	}
 	for id, in := range inputs {
 		o, have := outputs[id]
+		if sk, skipped := skips[id]; skipped && tfMapped(c, id) {
+			if in.Phase != "running" {
+				continue // torn down after the skip: the image is legitimately the one before the skip
+			}
+			// the last transform call for this input was skipped while its output existed: if nothing else happened to
+			// the pair since, the output is still there, untouched
+			quiet := true
+			for _, cm := range log[sk.LogLen:] {
+				if cm.ID != id {
+					continue
+				}
+				if cm.Type == TypeA && (cm.Kind == "destroy" || cm.Snap.Phase != "running") {
+					quiet = false
+				}
+				if cm.Type == TypeB && !strings.HasPrefix(cm.Task, "rt") {
+					quiet = false
+				}
+			}
+			if quiet {
+				switch {
+				case !have:
+					fail("output-removed-on-skip", "the transform of running input %s was skipped (SkipReconcileTag) while its output existed with content %q; at quiescence the output is gone", id, sk.Val)
+				case o.Owner == tfCtrlName && (o.Phase != "running" || o.Val != sk.Val):
+					fail("output-changed-on-skip", "the transform of running input %s was skipped (SkipReconcileTag) while its output existed with content %q; at quiescence the output is %s with content %q", id, sk.Val, o.Phase, o.Val)
+				}
+				out.probe("skip-checked")
+			}
+			continue
+		}
 		if !tfMapped(c, id) {
 			if have && o.Owner == tfCtrlName {
 				fail("orphan-output", "input %s is not mapped but an owned output exists", id)
